@@ -140,8 +140,29 @@ class C11(Property):
     id = "C11"
     title = "generated markup cannot be broken out of by data"
     proof_module = "Proofs.C11"
-    theorems = []
-    generated_obligations = []
+    theorems = [
+        "Flatland.C11.Proofs.chain_is_simultaneous",
+        "Flatland.C11.Proofs.no_breakout_attr",
+        "Flatland.C11.Proofs.no_breakout_text",
+        "Flatland.C11.Proofs.decode_escape_any",
+        "Flatland.C11.Proofs.decodeRefs_escape",
+        "Flatland.C11.Proofs.parse_render_generic",
+        "Flatland.C11.Proofs.parse_render",
+        "Flatland.C11.Proofs.x_unescapes",
+        "Flatland.C11.Proofs.xa_unescapes",
+        "Flatland.C11.Proofs.xa_attribute_safe",
+        "Flatland.C11.Proofs.x_text_safe",
+    ]
+    generated_obligations = [
+        "Flatland.C11.Proofs.attrChain_ok",
+        "Flatland.C11.Proofs.textChain_ok",
+        "Flatland.C11.Proofs.xChain_ok",
+        "Flatland.C11.Proofs.xaChain_ok",
+    ]
+    level_text = "proof"
+    level_note = ("escape chains are regenerated from the source and the theorems re-instantiated by `decide` on every run; "
+                  "the transforms that feed the serialiser and html.parser's agreement with the mini parser rest on correspondence")
+    technique = "generic theorems over .replace chains + decidable side condition on regenerated tables; parse∘render = id"
     trusted_base = [
         "python html.parser (3.12) as the 'standard HTML parser' of the statement; the Lean mini parser covers exactly the "
         "generator's output grammar and is compared with html.parser on every data-only case",
